@@ -342,7 +342,9 @@ func buildVote(vc *valCtx, blocks []BID, height, round int64, typ byte, s VoteSp
 			case m.Param == -2:
 				v.ValidatorAddress = rep(0x5A, 20)
 			case m.Param == -3:
-				v.ValidatorAddress = v.ValidatorAddress[:len(v.ValidatorAddress)-1]
+				if len(v.ValidatorAddress) > 0 {
+					v.ValidatorAddress = v.ValidatorAddress[:len(v.ValidatorAddress)-1]
+				}
 			default:
 				v.ValidatorAddress = append(v.ValidatorAddress, 0)
 			}
@@ -812,6 +814,15 @@ func resign(vc *valCtx, slot int, v *types.Vote) {
 	v.Signature = signWith(vc.keyOf[slot], types.SignBytes(chainID, v))
 }
 
+func allNil(c *types.Commit) bool {
+	for _, p := range c.Precommits {
+		if p != nil {
+			return false
+		}
+	}
+	return len(c.Precommits) > 0
+}
+
 // verdicts runs both verifiers on (a fresh copy of) the commit.
 func verdicts(fail failFn, vc *valCtx, blockID types.BlockID, height int64, c *types.Commit, what string) (implOK, refOK bool, stop bool) {
 	var err error
@@ -821,13 +832,7 @@ func verdicts(fail failFn, vc *valCtx, blockID types.BlockID, height int64, c *t
 		err = vc.set.VerifyCommit(chainID, blockID, height, cloneCommit(c))
 	}()
 	if pv != nil {
-		allNil := true
-		for _, p := range c.Precommits {
-			if p != nil {
-				allNil = false
-			}
-		}
-		if allNil && len(c.Precommits) > 0 {
+		if allNil(c) {
 			return false, false, fail(sigAllNil, "VerifyCommit panicked on %s (a commit whose %d precommit slots are all empty): %v", what, len(c.Precommits), pv)
 		}
 		return false, false, fail("verifycommit-panics", "VerifyCommit panicked on %s: %v", what, pv)
@@ -979,7 +984,7 @@ func checkCommit(x *h.Ctx, fail failFn, vs *types.VoteSet, m *refSet, blocks []B
 			cloneCommit(c).ValidateBasic()
 		}()
 		if pv != nil {
-			if t.Kind == "nil-all" || (t.Kind == "nil" && len(present) == 1) {
+			if allNil(c) {
 				if fail(sigAllNil, "Commit.ValidateBasic panicked on %s: %v", what, pv) {
 					return true
 				}
